@@ -103,6 +103,13 @@ def run_case(events, ts, via, run=None, clock_rows=False):
         processes=processes, topology=topology,
         emitter={'type': 'vmc_probe'}, display_info=False)
     eng.update(RUN if run is None else run)
+    if via == 'rerun':
+        # the SAME process objects simulated once more, in a new engine
+        # that starts from the defaults at time 0
+        eng = probes.MonitoredEngine(
+            processes=processes, topology=topology,
+            emitter={'type': 'vmc_probe'}, display_info=False)
+        eng.update(RUN if run is None else run)
     if clock_rows:
         # [(timeline clock variable, env)] per emitted row, in order
         out = []
@@ -264,8 +271,8 @@ def run_job(job, acc):
         return
     events, = job[:1]
     for ts in (0.5, 1, 2, 3):
-        for via in (('direct', 'add_timeline') if len(events) <= 2
-                    else ('direct',)):
+        for via in (('direct', 'add_timeline', 'rerun')
+                    if len(events) <= 2 else ('direct',)):
             rows = check(events, ts, via, acc)
             acc.case(key=(events, ts, via), outcome=f'n={len(events)}',
                      nontrivial=len(events) >= 2)
@@ -290,3 +297,7 @@ def replay(case):
         check(tuple(tuple(e) for e in case['events']), case['ts'],
               case['via'], acc)
     return [v for exs in acc.viol_examples.values() for v in exs]
+
+
+RULE += (
+    ' Also via=rerun: the same TimelineProcess object simulated a second time in a new engine.')
